@@ -467,7 +467,7 @@ impl Ctx {
                         failure_persistence: None,
                         rng_algorithm: RngAlgorithm::ChaCha,
                         rng_seed: RngSeed::Fixed(seed),
-                        max_shrink_iters: 4000,
+                        max_shrink_iters: 50_000,
                         max_global_rejects: 100_000,
                         ..Config::default()
                     };
